@@ -204,6 +204,16 @@ def check(res, tier, seed):
                 res.violation("closurestress", "implementation violates C06: %s" % vs[0], dict(kind="sys", family="closurestress", seed=r["seed"], all=vs[:6]))
         total += len(srecs)
         dist["closurestress"] += len(srecs)
+        # what the peer ANSWERS is peer input too: responses that cannot be decoded into the declared result type,
+        # reads that fail with every kind of error, frames for functions without results (black-box family linkend)
+        lrecs, lrc, lout = C.run_job(binary, wd, "linkend", dict(family="sys", seed=seed, n=(12 if tier == "quick" else 120), cases=["linkend"]), timeout=600)
+        if lrc != 0:
+            monitor_hits += 1
+            line = next((l for l in lout.splitlines() if l.startswith("panic:") or "fatal error" in l), (lout.strip().splitlines() or ["?"])[-1])
+            res.violation("linkend-crash", "the process died in a scenario in which the peer's answer cannot be used (last completed: %s): %s" % (lrecs[-1]["config"] if lrecs else "none", line[:300]),
+                          dict(kind="sys", family="linkend", output=lout[-3000:]))
+        total += len(lrecs)
+        dist["linkend"] += len(lrecs)
     if pid == "C07":
         # "... with the calling link's identity in its context": hubs with several links, relinking after a failure
         from . import sys_props
